@@ -218,7 +218,7 @@ def check_case(case):
                             continue
                         skip = None
                         pruned_want.append(r)
-                        if r[1] == "elem" and r[2] in (None, HTML_NS) and r[3] in _void():
+                        if r[1] == "elem" and r[2] in (None, HTML_NS) and r[3] == "event-source":
                             skip = r[0]
                     pruned_toks = [t for t in toks if t["type"] != "SerializeError"]
                     msg2 = validate(pruned_toks)
@@ -315,10 +315,11 @@ def _only_doctype_name_differs(a, b):
 
 
 def _void_with_children(fl):
-    """Does the tree contain an HTML void-listed element that has children? (recorded defect trigger)"""
-    void = _void()
+    """Does the tree contain THE void-listed element that the parser nevertheless gives children (event-source: on the serializer's
+    void list, an ordinary element to the tree constructor)?  That is the recorded finding's trigger.  Any other void element with
+    children is not excused: the unchanged parser never builds one."""
     for a, b in zip(fl, fl[1:]):
-        if a[1] == "elem" and a[2] in (None, HTML_NS) and a[3] in void and b[0] > a[0]:
+        if a[1] == "elem" and a[2] in (None, HTML_NS) and a[3] == "event-source" and b[0] > a[0]:
             return True
     return False
 
